@@ -156,9 +156,9 @@ theorem fit_tilt_total_unchanged_seg (s0 s1 : Int) (px0 px1 : R) (pre post : Lis
     (hs : s.1 i j = 1) (hothers : ∀ s' ∈ pre ++ post, s'.1 i j = 0) :
     fitTiltOpdSeg s0 s1 px0 px1 (pre ++ s :: post) opd i j + tiltRamp s0 s1 px0 px1 s.1 s.2.1 s.2.2 i j = opd i j := by
   unfold fitTiltOpdSeg
-  rw [sumList_append, sumList_cons,
-    sumList_zero pre _ (fun x hx => by rw [hothers x (List.mem_append_left _ hx)]; ring),
-    sumList_zero post _ (fun x hx => by rw [hothers x (List.mem_append_right _ hx)]; ring), hs]
+  rw [sumListB_append, sumListB_cons,
+    sumListB_zero pre _ (fun x hx => by rw [hothers x (List.mem_append_left _ hx)]; ring),
+    sumListB_zero post _ (fun x hx => by rw [hothers x (List.mem_append_right _ hx)]; ring), hs]
   ring
 
 /-- **Exactly the least-squares tip and tilt, and not the piston.** If `(t0, t1, t2)` satisfies the normal equations of
@@ -175,25 +175,25 @@ theorem fit_tilt_is_least_squares {ι : Type} (pix : Finset ι) (B0 B1 B2 opd : 
 /-- **History.** After any sequence of OPD updates and `fit_tilt` calls, the current OPD plus the ramp of the *sum of
 all recorded tilts* equals the initial OPD plus the sum of the updates — nothing is lost by a second fit, provided
 `multiply` hands every recorded tilt to the field (it does: `self.tilt[n::self.size]`, checked by the correspondence). -/
-theorem fit_tilt_history (s0 s1 : Int) (px0 px1 : R) (mask : Int → Int → R) (ops : List (Op R))
+theorem fit_tilt_history (s0 s1 : Int) (px0 px1 : R) (mask : Int → Int → R) (ops : List (TiltOp R))
     (opd : Int → Int → R) (ts : List (R × R)) (i j : Int) :
-    (run s0 s1 px0 px1 mask ops (opd, ts)).1 i j +
-      tiltRamp s0 s1 px0 px1 mask ((run s0 s1 px0 px1 mask ops (opd, ts)).2.map Prod.fst).sum
-        ((run s0 s1 px0 px1 mask ops (opd, ts)).2.map Prod.snd).sum i j =
-    opd i j + tiltRamp s0 s1 px0 px1 mask (ts.map Prod.fst).sum (ts.map Prod.snd).sum i j + updatesSum ops i j := by
+    (tiltRun s0 s1 px0 px1 mask ops (opd, ts)).1 i j +
+      tiltRamp s0 s1 px0 px1 mask ((tiltRun s0 s1 px0 px1 mask ops (opd, ts)).2.map Prod.fst).sum
+        ((tiltRun s0 s1 px0 px1 mask ops (opd, ts)).2.map Prod.snd).sum i j =
+    opd i j + tiltRamp s0 s1 px0 px1 mask (ts.map Prod.fst).sum (ts.map Prod.snd).sum i j + tiltUpdatesSum ops i j := by
   induction ops generalizing opd ts with
-  | nil => simp [run, updatesSum]
+  | nil => simp [tiltRun, tiltUpdatesSum]
   | cons op ops ih =>
     cases op with
-    | update d => simp only [run, updatesSum]; rw [ih]; ring
+    | update d => simp only [tiltRun, tiltUpdatesSum]; rw [ih]; ring
     | fit t1 t2 =>
-      simp only [run, updatesSum]; rw [ih]
+      simp only [tiltRun, tiltUpdatesSum]; rw [ih]
       simp only [List.map_append, List.sum_append, List.map_cons, List.map_nil, List.sum_cons, List.sum_nil, fitTiltOpd, tiltRamp]
       ring
 
 /-- non-vacuity: a 3x3 plane, full mask, an update between two fits with arbitrary coefficients -/
 example (i j : Int) := fit_tilt_history (R := ℚ) 3 3 (1/2) (1/4) (fun _ _ => 1)
-  [Op.fit 3 (-2), Op.update (fun i j => i + 2 * j), Op.fit (1/3) 5] (fun i j => i * j) [] i j
+  [TiltOp.fit 3 (-2), TiltOp.update (fun i j => i + 2 * j), TiltOp.fit (1/3) 5] (fun i j => i * j) [] i j
 example : (([0, 1] : List Nat).map fun k => pttBasis (R := ℚ) 3 4 (1/2) (1/4) (fun _ _ => 1) 2 0 k) = [1/2, 1/4] := by
   simp [pttBasis, cc, RealLike.ofInt]; norm_num
 end fit
